@@ -44,7 +44,8 @@ package neuronjson
 
 // An annotation update is a read-merge-write of the stored document: the read (getStoreData), the update of
 // the in-memory db and the write (putStoreData) lie in one critical section of the instance's updateMu
-// (C11: acknowledged field updates of one body are not lost).
+// (C11: acknowledged field updates of one body are not lost). Every successful return has handed the merged
+// document to the store (C16: the in-memory head never runs ahead of the store).
 //@ func Data.storeAndUpdate
 //@   prop C11 C16
 //@   requires d != nil
@@ -57,6 +58,9 @@ package neuronjson
 //@   assert at "origData, found, err := d.getStoreData(ctx, keyStr)": heldw("d.updateMu")
 //@   assert at "mdb.data[bodyid] = newData": heldw("d.updateMu") && lockepoch("d.updateMu") == ep && heldw("mdb.mu")
 //@   assert at "return d.putStoreData(ctx, keyStr, newData)": heldw("d.updateMu") && lockepoch("d.updateMu") == ep
+//@   ghost stored bool = false
+//@   ghostset at "return d.putStoreData(ctx, keyStr, newData)": stored = true
+//@   ensures result == nil ==> stored
 
 // GetKeysInRange, in-memory branch head (C16, C05): the ids returned are exactly the stored ids in
 // [keyBeg, keyEnd] - everything before the slice taken from the sorted id list is below the range,
